@@ -10,7 +10,7 @@
      viol  (level 2): a C08 property is false on the OBSERVED values:
        UpdateAtomic, OrderIndependent, WellFormed, MatchesRef (map-based reference),
        PrioBounded, NoClip, RotationExact (reference weighted round-robin), Fair,
-       CopyExact, LookupExact, PruneKeeps, ChainExact (updateState).      *)
+       CopyExact, RecoveryCopyExact, LookupExact, PruneKeeps, ChainExact (updateState).      *)
 EXTENDS TMValStore, TMValBig, TraceKit
 
 Trace == LoadTrace("trace.ndjson")
@@ -301,18 +301,32 @@ StepBootstrap(e) ==
      /\ viol' = viol \cup LookupViol(db2, e.loads, tr, e.base)
      /\ UNCHANGED <<cur, fresh>> /\ UnchangedX
 
+\* One block through the real persistence path.  e.batch: the validator updates the
+\* application returned; e.loaded / e.lcpu: what LoadLastABCIResponse gave back right after
+\* SaveABCIResponses (the crash-recovery copy); e.crash: the state was rebuilt from that copy
+\* (handshake after a crash between Commit and Save) instead of from the responses in memory.
+RecoveryClass(e) ==
+  (IF e.lerr # "none" THEN "unreadable"
+   ELSE IF e.loaded = << >> /\ e.batch # << >> THEN "validator_updates_lost"
+   ELSE IF e.loaded # e.batch THEN "validator_updates_differ"
+   ELSE "param_updates_differ") \o (IF e.discard THEN ":discard_abci_responses" ELSE ":keep_abci_responses")
+
 StepApply(e) ==
-  LET ok  == e.err = "none"
-      u   == UpdateState(ost, e.batch)
-      db2 == DbOf(e.db)
-      tr  == IF ok THEN (e.height + 2 :> e.nvals) @@ truth ELSE truth
-      s2  == [h |-> e.h, ih |-> ost.ih, vals |-> AsSet(e.vals), nvals |-> AsSet(e.nvals), lhc |-> e.lhc]
-      \* what updateState must produce, by the reference: the batch applied to the previous
-      \* NextValidators, then one round
-      ref == RefUpdate(ost.nvals.vals, e.batch)
-      exp == IF ref.ok THEN RefIncrement(ref.vals, 1) ELSE [vals |-> << >>, prop |-> 0]
+  LET ok   == e.err = "none"
+      resp == [vu |-> e.batch, cpu |-> e.cpu]
+      copy == LastResponseCopy(resp, e.discard)
+      u    == IF e.crash THEN RecoverFromStoredResponses(ost, resp, e.discard) ELSE ApplyBlockUpdates(ost, resp)
+      db2  == DbOf(e.db)
+      tr   == IF ok THEN (e.height + 2 :> e.nvals) @@ truth ELSE truth
+      s2   == [h |-> e.h, ih |-> ost.ih, vals |-> AsSet(e.vals), nvals |-> AsSet(e.nvals), lhc |-> e.lhc]
+      \* what the block must produce, by the reference: the batch applied to the previous
+      \* NextValidators, then one round - whether or not the node crashed in between
+      ref  == RefUpdate(ost.nvals.vals, e.batch)
+      exp  == IF ref.ok THEN RefIncrement(ref.vals, 1) ELSE [vals |-> << >>, prop |-> 0]
+      tag  == IF e.crash THEN "recovered_state:" ELSE ""
   IN /\ ost' = (IF ok THEN s2 ELSE ost) /\ odb' = db2 /\ truth' = tr /\ base' = e.base
      /\ drift' = drift
+          \cup FailIf(e.lerr # "none" \/ copy # [vu |-> e.loaded, cpu |-> e.lcpu], D("LoadLastABCIResponse differs from spec", e.lerr))
           \cup FailIf((u.err = "none") # ok, D("updateState acceptance differs from spec", u.err))
           \cup FailIf(ok /\ u.err = "none" /\ (SetView(u.st.nvals) # e.nvals \/ SetView(u.st.vals) # e.vals \/ u.st.lhc # e.lhc \/ u.st.h # e.h),
                       D("updateState differs from spec", "state"))
@@ -320,9 +334,13 @@ StepApply(e) ==
           \cup FailIf(~ok /\ db2 # odb, D("store changed by a refused block", "db"))
           \cup LoadDrift(db2, e.loads)
      /\ viol' = viol
-          \cup FailIf(ok # ref.ok, V("ChainExact", IF ok THEN "accepted_invalid_batch" ELSE "refused_valid_batch"))
-          \cup FailIf(ok /\ ref.ok /\ (e.nvals.vals # exp.vals \/ e.nvals.prop.a # exp.prop), V("ChainExact", "next_validators"))
-          \cup FailIf(ok /\ e.vals # SetView(ost.nvals), V("ChainExact", "validators_not_previous_next"))
+          \* (a) what recovery relies on is what was saved
+          \cup FailIf(e.err # "panic" /\ (e.lerr # "none" \/ e.loaded # e.batch \/ e.lcpu # e.cpu), V("RecoveryCopyExact", RecoveryClass(e)))
+          \* (b) the state (re)built for this block carries the prescribed set
+          \cup FailIf(ok # ref.ok, V("ChainExact", tag \o (IF ok THEN "accepted_invalid_batch" ELSE "refused_valid_batch")))
+          \cup FailIf(ok /\ ref.ok /\ (e.nvals.vals # exp.vals \/ e.nvals.prop.a # exp.prop), V("ChainExact", tag \o "next_validators"))
+          \cup FailIf(ok /\ e.lhc # (IF Len(e.batch) > 0 THEN e.height + 2 ELSE ost.lhc), V("ChainExact", tag \o "last_height_changed"))
+          \cup FailIf(ok /\ e.vals # SetView(ost.nvals), V("ChainExact", tag \o "validators_not_previous_next"))
           \cup FailIf(ok /\ ~WellFormed(e.nvals.vals), V("WellFormed", "chain:" \o WellFormedWhy(e.nvals.vals)))
           \cup LookupViol(db2, e.loads, tr, e.base)
      /\ UNCHANGED <<cur, fresh>> /\ UnchangedX
